@@ -6,7 +6,10 @@
 (* Overlap.tla as oracle.                                                                  *)
 (*                                                                                        *)
 (* A program (JSON, Data.programs[pid]):                                                   *)
-(*   objs[o]  : [shape, pos (options, x4 lattice), rot (options, rotation ids),           *)
+(*   objs[o]  : [shapes (options, catalogue ids: a random `shape` with fixed dimensions), *)
+(*               pos (options, x4 lattice), rot (options, rotation ids),                  *)
+(*               noise (options: displacement added by `mutate`, <<0,0,0>> when none),     *)
+(*               ynoise (options: quarter turns added to yaw by `mutate`, 0 when none),    *)
 (*               allow (options 0/1 of allowCollisions), occ (0/1 occluding),              *)
 (*               rv (0/1 requireVisible), vis / nvis (viewer object of `visible from` /   *)
 (*               `not visible from`, 0 = none), cont (own regionContainedIn, 0 = none)]    *)
@@ -18,6 +21,11 @@
 (*   blanket  : 1 when the optional blanket collision pre-check exists                     *)
 (* An assignment picks one option per object and property; `act` is the set of user       *)
 (* requirements enforced for this sample (hard ones always, soft ones by their coin).      *)
+(* The scene of an assignment is the FINAL scene: pose after mutation, sampled shape.      *)
+(* The built-in demands (SceneOK) and the requirement objects (Reqs) are derived from the  *)
+(* scene's objects and containers only -- never from WHICH properties were random: an      *)
+(* object with a constant pose that is mutated, or whose shape is random, is subject to    *)
+(* containment / non-overlap / visibility like any other.                                  *)
 (*                                                                                        *)
 (* MEANING (language reference): a scene is valid iff no two objects overlap unless one   *)
 (* of them allows collisions, every object lies inside its container (its own             *)
@@ -51,10 +59,19 @@ NO(p) == Len(Objs(p))
 NU(p) == Len(Progs[p].user)
 
 \* ------------------------------------------------------------------ the scene of an assignment
-PosOf(p, a, o) == Objs(p)[o].pos[a[o][1]]
-RotOf(p, a, o) == Objs(p)[o].rot[a[o][2]]
+\* yaw noise: R' = Rz(k quarter turns) R  (yaw is the first intrinsic angle)
+RzQ == <<<<0, -1, 0>>, <<1, 0, 0>>, <<0, 0, 1>>>>
+MatMul(A, B) == [r \in 1..3 |-> [c \in 1..3 |-> A[r][1] * B[1][c] + A[r][2] * B[2][c] + A[r][3] * B[3][c]]]
+SameMat(A, B) == \A r \in 1..3, c \in 1..3 : A[r][c] = B[r][c]
+RECURSIVE RzPow(_)
+RzPow(k) == IF k = 0 THEN <<<<1, 0, 0>>, <<0, 1, 0>>, <<0, 0, 1>>>> ELSE MatMul(RzQ, RzPow(k - 1))
+YawAddT == [rk \in (1..NR) \X (0..3) |-> CHOOSE r2 \in 1..NR : SameMat(Rots[r2], MatMul(RzPow(rk[2]), Rots[rk[1]]))]
+\* asg[o] = <<position, rotation, allowCollisions, position noise, yaw noise, shape>> option indices
+PosOf(p, a, o) == AddV(Objs(p)[o].pos[a[o][1]], Objs(p)[o].noise[a[o][4]])
+RotOf(p, a, o) == YawAddT[<<Objs(p)[o].rot[a[o][2]], Objs(p)[o].ynoise[a[o][5]]>>]
 Allows(p, a, o) == Objs(p)[o].allow[a[o][3]] = 1
-ObjW(p, a, o) == World(Objs(p)[o].shape, RotOf(p, a, o), PosOf(p, a, o))
+ShapeOf(p, a, o) == Objs(p)[o].shapes[a[o][6]]
+ObjW(p, a, o) == World(ShapeOf(p, a, o), RotOf(p, a, o), PosOf(p, a, o))
 ContW(p, c) == LET k == Progs[p].conts[c] IN
                IF k.kind = "mesh" THEN World(k.shape, k.rot, k.pos) ELSE Extrude(k.poly)
 ContainerOf(p, o) == IF Objs(p)[o].cont # 0 THEN Objs(p)[o].cont ELSE Progs[p].ws
@@ -100,9 +117,9 @@ Visible3(p, a, v, t, occs) ==
       vd2 == Sq(Progs[p].vd)
       behind == \A c \in cs : c[2] < x[2]
       far == Gap2S(<<PtBox(x)>>, T) > vd2
-      inview == ConvexT[Objs(p)[t].shape] /\ \A c \in cs : InPyramid(x, c) /\ D2(x, c) < vd2
+      inview == ConvexT[ShapeOf(p, a, t)] /\ \A c \in cs : InPyramid(x, c) /\ D2(x, c) < vd2
       clear == \A o \in occs : ~MeetS(<<Grow(HullBox(x, T))>>, ObjW(p, a, o))
-      hidden == \E o \in occs : \E k \in 1..NParts(Objs(p)[o].shape) :
+      hidden == \E o \in occs : \E k \in 1..NParts(ShapeOf(p, a, o)) :
                    \A c \in cs : Shadows(x, ObjW(p, a, o)[k], c)
   IN IF RotOf(p, a, v) # 1 THEN "free"
      ELSE IF behind \/ far THEN "F"
@@ -160,7 +177,7 @@ Blanket3(p, a) ==
   LET live == {o \in 1..NO(p) : ~Allows(p, a, o)}
       prs == {xy \in PairSet(p) : xy[1] \in live /\ xy[2] \in live}
       touch == \E xy \in prs : TouchS(ObjW(p, a, xy[1]), ObjW(p, a, xy[2]))
-      hit == \E xy \in prs : FclHit(ObjW(p, a, xy[1]), Objs(p)[xy[1]].shape, ObjW(p, a, xy[2]), Objs(p)[xy[2]].shape)
+      hit == \E xy \in prs : FclHit(ObjW(p, a, xy[1]), ShapeOf(p, a, xy[1]), ObjW(p, a, xy[2]), ShapeOf(p, a, xy[2]))
   IN Yes3(touch, ~hit)
 Truth3(p, a, r) ==
   CASE r.k = "B" -> Blanket3(p, a)
@@ -184,6 +201,7 @@ TruthAsImplemented3(p, a, j) ==
 
 \* ------------------------------------------------------------------ assignments
 Opt(p, o) == (1..Len(Objs(p)[o].pos)) \X (1..Len(Objs(p)[o].rot)) \X (1..Len(Objs(p)[o].allow))
+             \X (1..Len(Objs(p)[o].noise)) \X (1..Len(Objs(p)[o].ynoise)) \X (1..Len(Objs(p)[o].shapes))
 AsgSet(p) == CASE NO(p) = 1 -> {<<t1>> : t1 \in Opt(p, 1)}
                [] NO(p) = 2 -> {<<t1, t2>> : t1 \in Opt(p, 1), t2 \in Opt(p, 2)}
                [] NO(p) = 3 -> {<<t1, t2, t3>> : t1 \in Opt(p, 1), t2 \in Opt(p, 2), t3 \in Opt(p, 3)}
